@@ -28,7 +28,7 @@ theorem validList_zeros (fs : List Fixed) (ih : ∀ f ∈ fs, f.okF = true → f
   | cons f fs ihf =>
     simp only [Fixed.okList, Bool.and_eq_true] at hok
     simp only [Fixed.validList, Fixed.sizeList, zeros_take, zeros_drop, Bool.and_eq_true]
-    exact ⟨ih f (by simp) hok.1, ihf (fun g hg => ih g (by simp [hg])) hok.2⟩
+    exact ⟨ih f (by simp) hok.1.1, ihf (fun g hg => ih g (by simp [hg])) hok.2⟩
 
 theorem valid_zeros (f : Fixed) : f.okF = true → f.valid (zeros f.size) = true := by
   induction f using Fixed.induct' with
@@ -43,6 +43,23 @@ theorem valid_zeros (f : Fixed) : f.okF = true → f.valid (zeros f.size) = true
     simp only [Fixed.okF] at h
     simp only [Fixed.valid, Fixed.size]
     exact validList_zeros fs ih h
+  | podd d => intro _; rfl
+
+theorem valid_dflt (f : Fixed) (h : f.okF = true) : f.valid f.dflt = true := by
+  cases f with
+  | podd d => rfl
+  | pod n => exact valid_zeros _ h
+  | bool => exact valid_zeros _ h
+  | cenum k => exact valid_zeros _ h
+  | record fs => exact valid_zeros _ h
+
+theorem dflt_wf (f : Fixed) (h : f.okF = true) : BytesWF f.dflt := by
+  cases f with
+  | podd d => simpa [Fixed.okF] using h
+  | pod n => exact zeros_wf _
+  | bool => exact zeros_wf _
+  | cenum k => exact zeros_wf _
+  | record fs => exact zeros_wf _
 
 /-- The three facts about initializers, proved together by induction on the shape. -/
 def InitP (s : Shape) : Prop :=
@@ -54,7 +71,8 @@ theorem initFixed_valid (f : Fixed) (a : Init) (h : initOkFixed f a = true) (hok
     (initFixedBytes f a).length = f.size ∧ f.valid (initFixedBytes f a) = true
       ∧ BytesWF (initFixedBytes f a) := by
   cases a <;> simp [initOkFixed] at h
-  · exact ⟨by simp [initFixedBytes], by simpa [initFixedBytes] using valid_zeros f hok, zeros_wf _⟩
+  · exact ⟨by simp [initFixedBytes, Fixed.dflt_length], by simpa [initFixedBytes] using valid_dflt f hok,
+      by simpa [initFixedBytes] using dflt_wf f hok⟩
   · exact ⟨by simpa [initFixedBytes] using h.1.1, by simpa [initFixedBytes] using h.1.2,
       by simpa [initFixedBytes] using h.2⟩
 
